@@ -35,6 +35,22 @@ pub fn conjuring_probes() -> Vec<(String, String, String)> {
             twin.clone(),
         ));
     }
+    // the exported macros contain unsafe blocks: no caller-supplied expression may be evaluated inside
+    // one (an unsafe call in a macro operand must stay an error in a program without `unsafe`)
+    let macro_items = "use gc_arena::lock::RefLock; use gc_arena::barrier::{Write, field, unlock}; use gc_arena::unsize;\n#[derive(Collect)]\n#[collect(no_drop)]\nstruct Nd<'gc> { f: RefLock<Option<Gc<'gc, u8>>> }\n";
+    let mkm = |body: &str| format!("{PRELUDE}\n{macro_items}\nfn main() {{ rootless_mutate(|mc| {{ {body} }}); }}\n");
+    let sneak = "{ let _x: i8 = std::mem::transmute::<u8, i8>(1u8); VALUE }";
+    for (cls, tpl, value) in [
+        ("unsize! operand", "let g = Gc::new(mc, [1u8, 2]); let s: Gc<[u8]> = unsize!(OPERAND => [u8]); println!(\"SOME {}\", s.len());", "g"),
+        ("unsize! operand (cast)", "let g = Gc::new(mc, 7u64); let s: Gc<dyn std::fmt::Debug> = unsize!(OPERAND => dyn std::fmt::Debug); println!(\"SOME\");", "Gc::cast::<guarded::Token>(g)"),
+        ("field! operand", "let n = Gc::new(mc, Nd { f: RefLock::new(None) }); let w = Gc::write(mc, n); let _c = field!(OPERAND, Nd, f); println!(\"SOME\");", "w"),
+        ("unlock! operand", "let n = Gc::new(mc, Nd { f: RefLock::new(None) }); let w = Gc::write(mc, n); let _c = unlock!(OPERAND, Nd, f); println!(\"SOME\");", "w"),
+    ] {
+        let bad_operand = if value.contains("cast") { value.to_string() } else { sneak.replace("VALUE", value) };
+        let good_operand = if value.contains("cast") { "Gc::new(mc, 7u64)".to_string() } else { value.to_string() };
+        let good_tpl = if value.contains("cast") { tpl.replace("let g = Gc::new(mc, 7u64); ", "") } else { tpl.to_string() };
+        v.push((format!("unsafe operation inside a macro operand: {cls}"), mkm(&tpl.replace("OPERAND", &bad_operand)), mkm(&good_tpl.replace("OPERAND", &good_operand))));
+    }
     v
 }
 
